@@ -149,7 +149,7 @@ class Path:
     # Instantiated at every read (quantifier-free), never asserted as a forall.
     def wf_field(s, v, name):
         a = simplify(Val.a(v))
-        key = ("wf", name, a.get_id())
+        key = ("wf", name, eid(a))
         if key in s.done:
             return
         s.done.add(key)
@@ -158,7 +158,7 @@ class Path:
 
     def wf_elem(s, v, j):
         a = simplify(Val.a(v))
-        key = ("wfe", a.get_id(), j.get_id())
+        key = ("wfe", eid(a), eid(j))
         if key in s.done:
             return
         s.done.add(key)
@@ -188,8 +188,8 @@ class Path:
         s.wf_elem(v, j)
         if s.depth < 4:
             for idx, (a2, fn) in enumerate(list(s.schemas)):
-                if a2.eq(a) and (idx, j.get_id()) not in s.done:
-                    s.done.add((idx, j.get_id()))
+                if a2.eq(a) and (idx, eid(j)) not in s.done:
+                    s.done.add((idx, eid(j)))
                     s.depth += 1
                     try:
                         s.pc.append(fn(s, j))
@@ -302,8 +302,8 @@ class Path:
         k = simplify(k)
         if s.depth < 4:
             for idx, (a2, fn) in enumerate(list(s.dschemas)):
-                if a2.eq(a) and ("d", idx, k.get_id()) not in s.done:
-                    s.done.add(("d", idx, k.get_id()))
+                if a2.eq(a) and ("d", idx, eid(k)) not in s.done:
+                    s.done.add(("d", idx, eid(k)))
                     s.depth += 1
                     try:
                         s.pc.append(fn(s, k))
@@ -317,7 +317,7 @@ class Path:
     def dget(s, d, k, H=None):
         s.dinst(d, k)
         a = simplify(Val.a(d))
-        key = ("wfd", a.get_id(), simplify(k).get_id())
+        key = ("wfd", eid(a), eid(simplify(k)))
         if key not in s.done:
             s.done.add(key)
             r = Select(Select(BASE_DV, a), k)
@@ -341,6 +341,14 @@ class Path:
 
     def note(s, txt):
         s.notes.append(txt)
+
+
+_KEEP = []      # z3 ast ids are only unique while the ast is alive: keep every expression whose id is used as a key
+
+
+def eid(e):
+    _KEEP.append(e)
+    return e.get_id()
 
 
 STATS = {"feas_calls": 0, "feas_s": 0.0, "obl_calls": 0, "obl_s": 0.0}
